@@ -31,7 +31,7 @@ var hostileDates = []string{"2024-02-30", "0000-01-01", "9999-12-31", "2024-13-0
 var hostileDurations = []string{"99999999999999999999y", "9223372036854775807d", "0d", "0y0m0d", "1y1y", "d", "1", "1m1y", "100000y", "292277026597y"}
 var hostileRaws = []string{"!binary:", "!binary:%%%", "!binary:QQ", "!binary:QQ=", "!binary:QQ==\n", "!bogus", "binary:AQID", "!binary: AQID", "!BINARY:AQID", "!null ", "!empty!", "!binary:====", "!binary:AQIDBA==AQID"}
 var hostileSubjects = []string{"CN=", "=x", "CN=a,,O=b", "CN=#", "CN=#zz", "CN=#13", "CN=#1301", "CN=#130141", "CN=#0c0141", "CN=#1303414243", "CN=#30", "CN=\\,", "CN=a\\", "CN=a=b", "CN", ",", " ", "CN= x ", "1.2.99999999999999999999=x",
-	"CN=#13ff41", "CN=#13814141", "3.1=x", "1=x", "CN=a\\,b, O=c", "cn=lower", "CN=" + strings.Repeat("x", 70000)}
+	"CN=#13ff41", "CN=#13814141", "3.1=x", "1=x", "CN=a\\,b, O=c", "cn=lower", "CN=" + strings.Repeat("x", 4000)} // (List.rev in the model is quadratic: longer strings only cost evaluation time)
 var hostileIPs = []string{"256.1.1.1", "1.2.3", "1.2.3.4.5", "-1.2.3.4", "a.b.c.d", "300.1.2.3", "1.2.3.999999999999999999999", "", "::1", "1.2.3.4 ", "01.02.03.04"}
 
 func ptr[T any](v T) *T { return &v }
@@ -105,16 +105,94 @@ func (g *gen) poison(c *Cfg) string {
 	return "none"
 }
 
+// every hostile value once in every slot it applies to (on a plain subordinate)
+func hostileSweep() []func(c *Cfg) string {
+	var fs []func(c *Cfg) string
+	add := func(slot string, f func(c *Cfg)) { fs = append(fs, func(c *Cfg) string { f(c); return slot }) }
+	for _, v := range hostileSubjects {
+		v := v
+		add("subject", func(c *Cfg) { c.Subject = v })
+	}
+	for _, v := range hostileDates {
+		v := v
+		add("from", func(c *Cfg) { c.Validity = Validity{From: v, Until: "2030-01-01"} })
+		add("until", func(c *Cfg) { c.Validity = Validity{From: "2020-01-01", Until: v} })
+	}
+	for _, v := range hostileDurations {
+		v := v
+		add("duration", func(c *Cfg) { c.Validity = Validity{From: "2024-02-29", Duration: v} })
+		add("duration-relative", func(c *Cfg) { c.Validity = Validity{Duration: v} })
+	}
+	for _, v := range hostileRaws {
+		v := v
+		add("issuerUniqueId", func(c *Cfg) { c.IssuerUID = v })
+		add("raw", func(c *Cfg) { c.Exts = []Ext{{Kind: "ku", Raw: v, Crit: -1}} })
+		add("custom-raw", func(c *Cfg) { c.Exts = []Ext{{Kind: "custom", Oid: "1.2.3", Raw: v, Crit: -1}} })
+		add("manip-pk", func(c *Cfg) { c.Manip = Manip{Pk: v} })
+		add("manip-sig", func(c *Cfg) { c.Manip = Manip{SigValue: v} })
+		add("addProfessionInfo", func(c *Cfg) {
+			c.Exts = []Ext{{Kind: "adm", HasContent: true, Crit: -1, Adm: &Admission{List: []Admissions{{Infos: []ProfInfo{{Items: []string{"x"}, AddInfo: v}}}}}}}
+		})
+		add("aki-id", func(c *Cfg) { c.Exts = []Ext{{Kind: "aki", HasContent: true, Crit: -1, Str: v}} })
+		add("ski-content", func(c *Cfg) { c.Exts = []Ext{{Kind: "ski", HasContent: true, Crit: -1, Str: v}} })
+	}
+	for _, v := range hostileOids {
+		v := v
+		add("custom-oid", func(c *Cfg) { c.Exts = []Ext{{Kind: "custom", Oid: v, Raw: "!null", Crit: -1}} })
+		add("eku-oid", func(c *Cfg) { c.Exts = []Ext{{Kind: "eku", HasContent: true, Crit: -1, List: []string{v}}} })
+		add("policy-oid", func(c *Cfg) { c.Exts = []Ext{{Kind: "cp", HasContent: true, Crit: -1, Pols: []Policy{{Oid: v}}}} })
+		add("manip-outer", func(c *Cfg) { c.Manip = Manip{Outer: v} })
+		add("manip-inner", func(c *Cfg) { c.Manip = Manip{Inner: v} })
+		add("manip-pkalg", func(c *Cfg) { c.Manip = Manip{PkAlg: v} })
+		add("naming-oid", func(c *Cfg) {
+			c.Exts = []Ext{{Kind: "adm", HasContent: true, Crit: -1, Adm: &Admission{List: []Admissions{{Naming: &Naming{Oid: v}, Infos: []ProfInfo{{Items: []string{"x"}}}}}}}}
+		})
+		add("profession-oid", func(c *Cfg) {
+			c.Exts = []Ext{{Kind: "adm", HasContent: true, Crit: -1, Adm: &Admission{List: []Admissions{{Infos: []ProfInfo{{Items: []string{"x"}, Oids: []string{v}}}}}}}}
+		})
+		add("subject-attribute-oid", func(c *Cfg) { c.Subject = v + "=x" })
+	}
+	for _, v := range hostileIPs {
+		v := v
+		add("san-ip", func(c *Cfg) { c.Exts = []Ext{{Kind: "san", HasContent: true, Crit: -1, Names: [][2]string{{"ip", v}}}} })
+		add("admission-ip", func(c *Cfg) {
+			c.Exts = []Ext{{Kind: "adm", HasContent: true, Crit: -1, Adm: &Admission{Auth: &[2]string{"ip", v}, List: []Admissions{{Infos: []ProfInfo{{Items: []string{"x"}}}}}}}}
+		})
+	}
+	for _, v := range []int64{-1, -9223372036854775808, 9223372036854775807, -128, -129} {
+		v := v
+		add("serial", func(c *Cfg) { c.Serial = v })
+	}
+	for _, v := range []int64{-1, 2147483648, 9223372036854775807} {
+		v := v
+		add("pathLen", func(c *Cfg) { c.Exts = []Ext{{Kind: "bc", HasContent: true, Crit: -1, HasPl: true, PathLen: v}} })
+	}
+	return fs
+}
+
 func streamHostileCfg() {
 	g := &gen{r: rand.New(rand.NewSource(seed*104729 + 20)), focus: "c20"}
 	n := 250
 	if thorough() {
 		n = 5000
 	}
-	for i := 0; i < n; i++ {
-		ents, profs := g.hierarchy(i)
-		which := g.r.Intn(2)
-		slot := g.poison(&ents[which].cfg)
+	sweep := hostileSweep()
+	for i := 0; i < n+len(sweep); i++ {
+		var ents []entity
+		var profs []*Profile
+		var which int
+		var slot string
+		if i < len(sweep) {
+			ents = []entity{{name: "root", cfg: plainRoot()}, {name: "sub", cfg: plainSub(i)}}
+			ents[1].cfg.Issuer, ents[1].cfg.SigAlg = "root", "ECDSAwithSHA256"
+			which = 1
+			slot = sweep[i](&ents[1].cfg)
+		} else {
+			ents, profs = g.hierarchy(i)
+			which = g.r.Intn(2)
+			slot = g.poison(&ents[which].cfg)
+		}
+		_ = slot
 		text := jsonText(ents[which].cfg.tree())
 		// does the configuration still pass parsing and the schema?  If not it is skipped with a warning: no model case
 		parsed := true
